@@ -1,4 +1,4 @@
-"""DBOS half of C36 under latency: the real `DBOSIdleReleaseDecorator` + the real `SqliteRunLifecycleLock`
+"""DBOS half of C36 and C26 under latency: the real `DBOSIdleReleaseDecorator` + the real `SqliteRunLifecycleLock`
 over a stand-in inner engine, with **latency gates** (virtual time) around every lifecycle-store call and
 around every delivery to the run, and client sends placed inside those windows.
 
@@ -16,6 +16,8 @@ fixes, in milliseconds of virtual time,
     sends: [{at, n}]             client `send_event(Ext(n))` calls at absolute times (the run starts at 0 and is idle at once)
     quiet                        how long nothing is sent after the last send before the facts are read
     final                        then send Ext(99), which must reload the run (exactly once) and finish it
+    work                         (C26) virtual ms step `b` works on a client event (one number, or {n: ms}): `running work` exists
+    crash_horizon                (C26) a client send that is still open at the end is followed past CRASH_TIMEOUT_SECONDS (snapshot `late`)
 
 Three things come out of one execution:
 
@@ -23,8 +25,8 @@ Three things come out of one execution:
   rcomplete uspawn utry usend ufinish wfstep`, M7 part B) and after each the observable state of the real stack (row read back
   with sqlite3, incarnation up/down, the run's mailbox, ticks consumed, releaser / sender positions, *whether a releaser's
   task ended before its release did*) is compared with the model's.
-* **S**: the rules of `monitors()` on the same observations — independent of the model; every bound is computed from the
-  case's own latencies.
+* **S**: the rules of `monitors()` (C36) / `monitors_c26()` (C26) on the same observations — independent of the model; every
+  bound is computed from the case's own latencies.
 * the replayable case itself.
 
 The lifecycle row is inserted by the harness (`RunLifecycleLock.create` has no production call site: known finding
@@ -57,6 +59,23 @@ def _lat(case: dict, key: str, j: int) -> int:
     return int(v)
 
 
+def _work(case: dict, n: int) -> int:
+    """virtual ms step b works on Ext(n) (`work`: one number for every client event, or {n: ms}); Ext(99) is instantaneous"""
+    w = case.get("work") or 0
+    if n == STOP_N:
+        return 0
+    if isinstance(w, dict):
+        return int(w.get(str(n), 0))
+    return int(w)
+
+
+def _work_max(case: dict) -> int:
+    w = case.get("work") or 0
+    if isinstance(w, dict):
+        return max([int(x) for x in w.values()] or [0])
+    return int(w)
+
+
 def _lat_max(case: dict, key: str) -> int:
     v = (case.get("lat") or {}).get(key, 0)
     if isinstance(v, list):
@@ -75,7 +94,7 @@ def send_bound(case: dict) -> int:
 
 def default_quiet(case: dict) -> int:
     """after the last send call: a sender may poll `releasing` (0.5 s steps), reload, the run works, idles, is released again"""
-    return 2 * (release_bound(case) + send_bound(case)) + int(case["tau"]) + 1500
+    return 2 * (release_bound(case) + send_bound(case)) + int(case["tau"]) + 1500 + _work_max(case) * max(1, len(case.get("sends") or []))
 
 
 def ms(t: float) -> int:
@@ -117,6 +136,7 @@ def run_case(case: dict) -> dict:
     quiet = int(case.get("quiet", 0)) or default_quiet(case)
     db = LDB.make_db()
     executions: list[int] = []  # ns in the order step b ran them
+    completed: list[int] = []  # ns whose step b ran to its end
 
     class WF(Workflow):
         @step
@@ -127,11 +147,20 @@ def run_case(case: dict) -> dict:
         @step
         async def b(self, ctx: Context, ev: Ext) -> StopEvent | None:
             executions.append(ev.n)
-            async with ctx.store.edit_state() as st:
-                st["seen"] = list(st.get("seen", [])) + [ev.n]
-            if ev.n == STOP_N:
-                return StopEvent(result=list(await ctx.store.get("seen")))
-            return None
+            note("step_start", n=ev.n)
+            try:
+                w = _work(case, ev.n)
+                if w > 0:
+                    await asyncio.sleep(w / 1000.0)  # the step is *running* work for w ms of virtual time
+                async with ctx.store.edit_state() as st:
+                    st["seen"] = list(st.get("seen", [])) + [ev.n]
+                res = StopEvent(result=list(await ctx.store.get("seen"))) if ev.n == STOP_N else None
+            except BaseException as e:  # noqa: BLE001
+                note("step_end", n=ev.n, how=type(e).__name__)
+                raise
+            completed.append(ev.n)
+            note("step_end", n=ev.n, how="done")
+            return res
 
     # ---- observation state -------------------------------------------------
     ops: list[str] = []
@@ -264,7 +293,8 @@ def run_case(case: dict) -> dict:
                     if self._inc == O["inc"]:
                         O["up"] = False
                         emit("wfstep")
-                    note("consume_ir", inc=self._inc)
+                    # what the run still holds at the moment TickIdleRelease ends it: client ticks left in its mailbox
+                    note("consume_ir", inc=self._inc, queued=[x for x in queue_items(O["incs"][self._inc]["queues"]) if x != "IR"])
             return res
 
         async def write_to_event_stream(self, event: Any) -> None:
@@ -339,7 +369,8 @@ def run_case(case: dict) -> dict:
                         e = getattr(x, "event", None)
                         if isinstance(e, Ext):
                             folded.append(e.n)
-                note("reload", k=k, inc=O["inc"], folded=folded)
+                note("reload", k=k, inc=O["inc"], folded=folded,
+                     live_before=[j for j, i in enumerate(O["incs"][:-1]) if not i["queues"].complete.done()])
                 if k is not None:
                     O["res"][k] = "done"
                     n = O["k2n"].get(k)
@@ -479,8 +510,11 @@ def run_case(case: dict) -> dict:
                 f = {"tag": tag, "t": now(), "row": LDB.read_row(db, rid), "inc": O["inc"], "in_memory": not cur["queues"].complete.done(),
                      "idle_since_set": h.idle_since is not None, "status": h.status,
                      "result": getattr(h.result, "result", None) if h.result is not None else None,
-                     "reloads": len(O["incs"]) - 1, "timers": len(dec._deferred_release_tasks)}
+                     "reloads": len(O["incs"]) - 1, "timers": len(dec._deferred_release_tasks),
+                     "send_pcs": {str(k): O["res"].get(k) for k in sorted(O["k2n"])},
+                     "live_loops": [j for j, i in enumerate(O["incs"]) if not i["queues"].complete.done()]}
                 out["facts"][tag] = f
+                note("snapshot", tag=tag)
                 return f
 
             async def client(k: int, at: int, n: int) -> None:
@@ -507,6 +541,17 @@ def run_case(case: dict) -> dict:
                 f = await snapshot("final")
                 f["send_pending"] = O["res"].get(k) not in ("done",) and not any(e["ev"] == "send_task_ended" and e["k"] == k for e in ev)
                 f["send_pc"] = O["res"].get(k)
+            if case.get("crash_horizon"):
+                # C26: a client send that has still not been handed to the run is followed past the crash timeout (the point at which a
+                # sender that polls `releasing` may take the run over) -- only then is "never processed" a fact and not a slow release
+                def open_sends() -> list[int]:
+                    closed = {e.get("k") for e in ev if e["ev"] in ("send_task_ended", "send_refused", "send_done")}
+                    return [k for k in sorted(O["k2n"]) if O["res"].get(k) != "done" and k not in closed]
+
+                if open_sends():
+                    await _pause(int(DIR.CRASH_TIMEOUT_SECONDS * 1000) + send_bound(case) + release_bound(case) + 3000)
+                    f = await snapshot("late")
+                    f["open_sends"] = open_sends()
             for t in tasks:
                 if not t.done():
                     t.cancel()
@@ -528,6 +573,7 @@ def run_case(case: dict) -> dict:
             except OSError:
                 pass
     out["executions"] = executions
+    out["completed"] = completed
     out["case"] = case
     return out
 
@@ -632,6 +678,269 @@ def monitors(o: dict, prop: str = "C36") -> list[tuple[str, str]]:
 
 
 # --------------------------------------------------------------------------
+# C26's monitors on the same observations
+
+
+WINDOW = "tick_arrived_during_release"  # cause suffix of the classes the unchanged tree exhibits (see monitors_c26)
+RESUME_WINDOW = "tick_sent_during_resume"  # ... and this one: `active` is written by the resumer's CAS before the new workflow exists
+CRASH_MS = 120000
+
+
+def _row_state(row: str) -> tuple[str, int]:
+    st, _, t = row.partition("=")[2].partition("@")
+    return st, int(t or 0)
+
+
+def monitors_c26(o: dict) -> list[tuple[str, str]]:
+    """C26 on the observations of one execution of the DBOS stack under latency (no process crash is injected, so every
+    task of the decorator that ends did so by the code's own doing).  All rules are stated on the observation log
+    (list order = order of occurrence; times only where the property has a time in it):
+
+    * two_live_loops: when a control loop of the run is started, every earlier loop of that run has exited.
+    * two_resumers: `try_begin_resume` answers `released` (ownership of the resume) only from a row that read `released`, or
+      `releasing` for longer than the crash timeout; between two such answers a release was begun; every reload was started by
+      an owner, at most one per ownership.
+    * releasing_without_releaser: from the commit of active->releasing to complete_release the releaser's task (then its
+      `_await_and_mark_released` task) is alive; if it ends in between while the row still reads that `releasing`, nobody is
+      left to send TickIdleRelease / complete the release.
+    * released_while_busy: at the moment TickIdleRelease ends a control loop, the run has no client tick in its mailbox, no
+      step running, and its last announcement of idleness is later than the last tick it consumed.
+    * event_never_processed: every client event whose send was accepted has been worked off by step `b` (to its end) when the
+      execution ends; a sender that is still in its polling loop is followed past the crash timeout first (`crash_horizon`).
+
+    Cause `tick_arrived_during_release`: the offending tick passed the lifecycle check before the release that ended the run
+    committed `releasing` (the answer `active` was true when given) and reached the run after that release's timer had fired.
+    The unchanged tree does this (TickIdleRelease is reduced unconditionally, nothing re-checks the run between the timer and
+    the exit; check-then-send window): classified apart so that every *other* way of releasing a busy run or losing an event
+    keeps its own signature.
+    """
+    prop = "C26"
+    case, ev, facts = o["case"], o["events"], o["facts"]
+    tau = int(case["tau"])
+    out: list[tuple[str, str]] = []
+    q = facts.get("quiet")
+    if q is None:
+        return [(f"{prop}/dbos_gated_harness", f"no quiet snapshot: {o.get('errors')}")]
+    for e in ev:
+        if e["ev"] == "send_task_ended" and e.get("pc") == "owner" and e.get("exc") == "ValueError" and "not found in in_progress" in e.get("msg", "") \
+                and e.get("reloads", 0) >= 1:
+            return [(f"{prop}/dbos_second_reload_fails",
+                     f"DBOS stack, idle_timeout {tau} ms: the run was reloaded once (the reloading tick is folded into the rebuilt state by _do_resume and never appended to the tick log), "
+                     f"released again, and the next send's _do_resume raised {e['exc']}: {e['msg']} after try_begin_resume had already set the row to `active`: "
+                     f"the run is not in memory, the row says active, persisted ticks: {facts.get('persisted')}")]
+    last = facts.get("late") or facts.get("final") or q
+    lat_txt = json.dumps(case.get("lat") or {}, sort_keys=True)
+    head = f"DBOS stack, idle_timeout {tau} ms, latencies {lat_txt}" + (f", step work {case.get('work')} ms" if case.get("work") else "")
+    idx = {id(e): j for j, e in enumerate(ev)}
+
+    def pos(e: dict) -> int:
+        return idx[id(e)]
+
+    # ---- never two live control loops of one run
+    for e in ev:
+        if e["ev"] == "reload" and e.get("live_before"):
+            out.append((f"{prop}/dbos_two_live_loops",
+                        f"{head}: at {e['t']} ms sender {e['k']} started control loop #{e['inc']} of the run while loop(s) {e['live_before']} of the same run had not exited"))
+            break
+    else:
+        for tag in ("quiet", "final", "late"):
+            f = facts.get(tag)
+            if f is not None and len(f.get("live_loops") or []) > 1:
+                out.append((f"{prop}/dbos_two_live_loops", f"{head}: at {f['t']} ms control loops {f['live_loops']} of the same run are live"))
+                break
+
+    # ---- at most one resumer per released run
+    owners = [e for e in ev if e["ev"] == "try_resume" and e["res"] == "released"]
+    prev = None
+    for e in owners:
+        st, upd = _row_state(e["before"])
+        if st == "active" or e["before"] == "row=-":
+            out.append((f"{prop}/dbos_two_resumers:owner_of_{st or 'missing'}_row",
+                        f"{head}: at {e['t']} ms try_begin_resume told sender {e['k']} it owns the resume although the row read {e['before']}"))
+            break
+        if st == "releasing" and e["t"] - upd <= CRASH_MS:
+            out.append((f"{prop}/dbos_two_resumers:takeover_before_crash_timeout",
+                        f"{head}: at {e['t']} ms sender {e['k']} took over a release begun at {upd} ms ({e['t'] - upd} ms <= crash timeout {CRASH_MS} ms)"))
+            break
+        if prev is not None and not any(b["ev"] == "begin" and b["ok"] and pos(prev) < pos(b) < pos(e) for b in ev):
+            out.append((f"{prop}/dbos_two_resumers:two_owners_of_one_release",
+                        f"{head}: senders {prev['k']} (at {prev['t']} ms) and {e['k']} (at {e['t']} ms) were both told they own the resume; no release began in between"))
+            break
+        prev = e
+    reloads = [e for e in ev if e["ev"] == "reload"]
+    for j, e in enumerate(reloads):
+        mine = [w for w in owners if w["k"] == e["k"] and pos(w) < pos(e)]
+        earlier = [r for r in reloads[:j] if mine and pos(r) > pos(mine[-1])]
+        if not mine or earlier:
+            out.append((f"{prop}/dbos_two_resumers:reload_without_ownership",
+                        f"{head}: at {e['t']} ms sender {e['k']} started control loop #{e['inc']} "
+                        + ("without having been given the resume by try_begin_resume" if not mine else "although that ownership had already started a loop")))
+            break
+
+    # ---- the row does not stay `releasing` without a live releaser
+    rows_seen: list[tuple[int, int, str]] = []  # (position, time, row)
+    for e in ev:
+        for key in ("before", "row"):
+            if key in e:
+                rows_seen.append((pos(e), e["t"], e[key]))
+    for tag in ("quiet", "final", "late"):
+        if facts.get(tag):
+            rows_seen.append((len(ev), facts[tag]["t"], facts[tag]["row"]))
+    for b in ev:
+        if not (b["ev"] == "begin" and b["ok"] and b["i"] is not None):
+            continue
+        i = b["i"]
+        comp = [e for e in ev if e["ev"] == "complete" and e["i"] == i and pos(e) > pos(b)]
+        ended = [e for e in ev if e["ev"] in ("release_task_ended", "mark_task_ended") and e["i"] == i and pos(e) > pos(b)
+                 and (not comp or pos(e) < pos(comp[0]))]
+        if not ended:
+            continue
+        x = ended[0]
+        mine = f"row=releasing@{_row_state(b['row'])[1]}"
+        still = [(t, r) for (p_, t, r) in rows_seen if p_ > pos(x) and r == mine]
+        if not still:
+            continue
+        phase = "before_idle_release_sent" if x["ev"] == "release_task_ended" else "before_complete_release"
+        sent = any(e["ev"] == "ir_sent" and e["i"] == i for e in ev)
+        out.append((f"{prop}/dbos_releasing_without_releaser:{phase}",
+                    f"{head}: releaser {i} committed active->releasing at {b['t']} ms; its task ended at {x['t']} ms with {x.get('exc')} "
+                    f"({'after' if sent else 'before'} TickIdleRelease was sent, before complete_release) although no crash was injected; the row still reads {mine} at "
+                    f"{still[-1][0]} ms, the run's control loop is {'live' if last.get('live_loops') else 'gone'} (loops live: {last.get('live_loops')}), "
+                    f"ticks consumed by the run: {[(e['t'], e['n']) for e in ev if e['ev'] == 'consume']}; nobody is left to send TickIdleRelease / complete_release, "
+                    f"later senders poll `releasing` until the {CRASH_MS // 1000} s crash timeout"))
+        break
+
+    # ---- released only while there is no queued, running or scheduled work
+    n2k = {e["n"]: e["k"] for e in ev if e["ev"] == "send_call"}
+
+    def admitted(n: int) -> dict | None:
+        k = n2k.get(n)
+        xs = [e for e in ev if e["ev"] == "try_resume" and e["k"] == k and e["res"] == "None"]
+        return xs[0] if xs else None
+
+    def cause(ns: list[int], rel_start: dict | None, begin: dict | None) -> str:
+        """WINDOW iff every offending tick was admitted before this release committed and was consumed by the run (or, if it never
+        was, reached its mailbox) no earlier than the release's timer fired: the run was idle as far as it knew when the timer fired"""
+        if rel_start is None or begin is None or not ns:
+            return "no_tick_in_flight"
+        for n in ns:
+            a = admitted(n)
+            cons = [e for e in ev if e["ev"] == "consume" and e.get("n") == n]
+            deliv = [e for e in ev if e["ev"] == "delivered" and e.get("n") == n]
+            if a is None or pos(a) > pos(begin):
+                return "tick_admitted_after_release_began"
+            if cons and pos(cons[0]) < pos(rel_start):
+                return "run_not_idle_when_timer_fired"
+            if not cons and (not deliv or deliv[0]["t"] < rel_start["t"]):
+                return "tick_in_mailbox_before_timer_fired"
+        return WINDOW
+
+    busy_release: dict[int, str] = {}  # inc -> cause (for the classification of lost events)
+    for c in ev:
+        if c["ev"] != "consume_ir":
+            continue
+        inc = c["inc"]
+        before = [e for e in ev[:pos(c)]]
+        mine = [e for e in before if e.get("inc") == inc and e["ev"] in ("announce", "consume", "start", "reload")]
+        t_from = max([pos(e) for e in before if e["ev"] in ("start", "reload") and e.get("inc") == inc] or [0])
+        running: list[int] = []
+        for e in before[t_from:]:
+            if e["ev"] == "step_start":
+                running.append(e["n"])
+            elif e["ev"] == "step_end" and e["n"] in running:
+                running.remove(e["n"])
+        k2n = {k: n for n, k in n2k.items()}
+        queued = [k2n.get(int(x[1:]), -1) for x in c.get("queued") or [] if x[1:].isdigit()]
+        unannounced = [e["n"] for e in mine if e["ev"] == "consume" and not any(a["ev"] == "announce" and pos(a) > pos(e) for a in mine)]
+        kinds = []
+        if running:
+            kinds.append("step_running")
+        if queued:
+            kinds.append("tick_queued")
+        if unannounced and not running:
+            kinds.append("no_idle_announcement_since_last_tick")
+        if not kinds:
+            continue
+        irs = [e for e in before if e["ev"] == "ir_sent" and e.get("inc") == inc]
+        i = irs[-1]["i"] if irs else None
+        rs = next((e for e in before if e["ev"] == "release_start" and e["i"] == i), None)
+        bg = next((e for e in before if e["ev"] == "begin" and e["i"] == i and e["ok"]), None)
+        why = cause(sorted(set(running + queued + unannounced)), rs, bg)
+        busy_release[inc] = why
+        out.append((f"{prop}/dbos_released_while_busy:{'+'.join(kinds)}:{why}",
+                    f"{head}: TickIdleRelease of releaser {i} (timer fired at {rs['t'] if rs else '?'} ms, active->releasing at {bg['t'] if bg else '?'} ms) ended control loop #{inc} at {c['t']} ms "
+                    f"while the run had work: step b running on {running}, client ticks left in its mailbox {queued}, ticks consumed after the last idle announcement {unannounced}; "
+                    f"the offending ticks were admitted by try_begin_resume at {[(n, (admitted(n) or {}).get('t')) for n in sorted(set(running + queued + unannounced))]} "
+                    f"(row then active) and reached the run at {[(e['n'], e['t']) for e in ev if e['ev'] in ('consume', 'delivered') and e.get('n') in set(running + queued + unannounced)]}"))
+
+    # ---- every accepted event is eventually processed
+    completed = list(o.get("completed") or [])
+    refused = {e["n"] for e in ev if e["ev"] == "send_refused"}
+    for s in [e for e in ev if e["ev"] == "send_call"]:
+        n, k = s["n"], s["k"]
+        if n in refused or n in completed:
+            continue
+        if n == STOP_N and "final" not in facts:
+            continue
+        pc = (last.get("send_pcs") or {}).get(str(k))
+        deliv = [e for e in ev if e["ev"] == "delivered" and e["n"] == n]
+        cons = [e for e in ev if e["ev"] == "consume" and e["n"] == n]
+        t_last = max([pos(e) for e in ev if e["ev"] == "snapshot"] or [len(ev)])
+        ended = [e for e in ev if e["ev"] == "send_task_ended" and e.get("k") == k and pos(e) < t_last]  # later: the harness' own teardown
+        rowst = _row_state(last["row"])[0]
+        returned = [e for e in ev if e["ev"] == "send_done" and e.get("k") == k]
+        if pc != "done" and not ended and not returned:
+            if "late" not in facts:
+                continue  # not followed past the crash timeout: no verdict on `eventually`
+            sig = f"{prop}/dbos_event_never_processed:sender_{pc}:row_{rowst}"
+            what = (f"its sender is still at `{pc}` at {last['t']} ms ({last['t'] - s['t']} ms after the call, past the {CRASH_MS // 1000} s crash timeout); lifecycle {last['row']}, "
+                    f"control loops live: {last.get('live_loops')}, reloads: {last.get('reloads')}; try_begin_resume answers to it: "
+                    f"{_compress([(e['t'], e['res']) for e in ev if e['ev'] == 'try_resume' and e['k'] == k])}")
+        elif ended:
+            sig = f"{prop}/dbos_event_never_processed:sender_failed_{ended[0]['exc']}:row_{rowst}"
+            what = f"its sender ended at {ended[0]['t']} ms at `{ended[0].get('pc')}` with {ended[0]['exc']}: {ended[0].get('msg')}"
+        elif cons:
+            ends = [e for e in ev if e["ev"] == "step_end" and e["n"] == n]
+            inc = cons[0]["inc"]
+            why = busy_release.get(inc, "run_not_released")
+            sig = f"{prop}/dbos_event_never_processed:step_cut_short:{why}"
+            what = (f"the run consumed it at {cons[0]['t']} ms (loop #{inc}); step b on it ended {[(e['t'], e['how']) for e in ends]} and never ran to its end")
+        elif deliv:
+            d = deliv[0]
+            a = admitted(n)
+            rel = [b for b in ev if b["ev"] == "begin" and b["ok"] and a is not None and pos(b) > pos(a) and pos(b) < pos(d)]
+            # an owner of the resume has set the row to `active` and has not started the new control loop yet
+            resuming = [w for w in owners if a is not None and pos(w) < pos(a)
+                        and not any(r["k"] == w["k"] and pos(w) < pos(r) < pos(d) for r in reloads)
+                        and not any(b["ev"] == "begin" and b["ok"] and pos(w) < pos(b) < pos(a) for b in ev)]
+            why = WINDOW if (a is not None and rel) else (RESUME_WINDOW if resuming else "no_release_between_check_and_delivery")
+            sig = f"{prop}/dbos_event_never_processed:{'delivered_after_exit' if not d['live'] else 'left_in_mailbox'}:{why}"
+            what = (f"try_begin_resume answered `active` at {a['t'] if a else '?'} ms, the tick reached the run's mailbox at {d['t']} ms "
+                    f"({'the workflow had exited on TickIdleRelease' if not d['live'] else 'behind TickIdleRelease'}; release committed at {[b['t'] for b in rel]} ms"
+                    + (f"; sender {resuming[-1]['k']} had taken the resume at {resuming[-1]['t']} ms (row -> active) and had not started the new control loop yet" if resuming and not rel else "")
+                    + ") and was never consumed")
+        else:
+            sig = f"{prop}/dbos_event_never_processed:not_delivered:sender_{pc}"
+            what = (f"its sender returned at {returned[0]['t'] if returned else '?'} ms (position `{pc}`, try_begin_resume answers "
+                    f"{_compress([(e['t'], e['res']) for e in ev if e['ev'] == 'try_resume' and e['k'] == k])}) but the tick was neither delivered to the run's mailbox nor folded into a reload; "
+                    f"lifecycle {last['row']}")
+        out.append((sig, f"{head}: Ext({n}) sent at {s['t']} ms (accepted) was never processed to the end by step b (completed: {completed}): {what}"))
+    seen: set[str] = set()
+    return [(sig, what) for sig, what in out if not (sig in seen or seen.add(sig))]  # the first occurrence of each signature
+
+
+def _compress(xs: list) -> list:
+    """[(t, r), ...] with runs of equal r collapsed to first/last"""
+    res: list = []
+    for t, r in xs:
+        if res and res[-1][1] == r:
+            res[-1] = (res[-1][0], r, t)
+        else:
+            res.append((t, r))
+    return res
+
+
+# --------------------------------------------------------------------------
 # K: the protocol machine of M7 (B) against the observed actions
 
 
@@ -691,6 +1000,23 @@ WITNESS_SECOND_RELOAD = _corpus("c36_dbos_second_reload.json")
 CORPUS = [("plain", CASE_PLAIN), ("tick_in_begin_response", CASE_TICK_IN_BEGIN_RESPONSE), ("tick_in_ir_delivery", CASE_TICK_IN_IR_DELIVERY),
           ("tick_in_begin_request", CASE_TICK_IN_BEGIN_REQUEST), ("two_ticks", CASE_TWO_TICKS), ("send_while_releasing", CASE_SEND_WHILE_RELEASING)]
 
+# ---- C26: the same cases followed past the crash timeout, + steps that take time, + concurrent resumers
+CASE_C26_MID_CAS = _corpus("c26_dbos_tick_cancels_release_mid_cas.json")
+C26_CORPUS = [(n, dict(c, crash_horizon=True)) for n, c in CORPUS] + [
+    ("tick_cancels_release_mid_cas", CASE_C26_MID_CAS),
+    ("working_step_then_release", {"tau": 200, "work": 150, "sends": [{"at": 100, "n": 1}], "final": True, "crash_horizon": True}),
+    ("work_outlasts_timeout", {"tau": 100, "work": 400, "lat": {"begin_req": 10, "begin_resp": 30, "deliver": 10}, "sends": [{"at": 50, "n": 1}, {"at": 80, "n": 2}], "final": True, "crash_horizon": True}),
+    ("three_resumers_at_once", {"tau": 100, "lat": {"resume_req": [0, 10, 0]}, "sends": [{"at": 300, "n": 1}, {"at": 300, "n": 2}, {"at": 301, "n": 3}], "final": False, "crash_horizon": True}),
+    ("two_senders_poll_releasing", {"tau": 200, "lat": {"begin_resp": 100, "ir": 100, "complete_req": 100}, "sends": [{"at": 250, "n": 1}, {"at": 260, "n": 2}], "final": False, "crash_horizon": True}),
+]
+# what the UNCHANGED tree does to a tick that is in flight while the run is released / resumed (counted, classified apart; see monitors_c26)
+C26_WITNESSES = [
+    ("released_while_step_running", _corpus("c26_dbos_released_while_step_running.json"),
+     ["C26/dbos_released_while_busy:step_running:" + WINDOW, "C26/dbos_event_never_processed:step_cut_short:" + WINDOW]),
+    ("tick_after_idle_release", _corpus("c26_dbos_tick_after_idle_release.json"), ["C26/dbos_event_never_processed:delivered_after_exit:" + WINDOW]),
+    ("tick_sent_during_resume", _corpus("c26_dbos_tick_sent_during_resume.json"), ["C26/dbos_event_never_processed:delivered_after_exit:" + RESUME_WINDOW]),
+]
+
 _LATS = [0, 0, 0, 1, 10, 20, 50, 100, 150, 300]
 
 
@@ -725,6 +1051,27 @@ def gen_case(rng: random.Random) -> dict:
     return case
 
 
+def gen_case_c26(rng: random.Random) -> dict:
+    """C26's distribution over the same case space: the sends of `gen_case` (placed on the instants of the first release), plus
+    steps that take time (so that `running work` exists), plus bursts of senders that find the run released or releasing at
+    the same instant (concurrent resumers); every open send is followed past the crash timeout"""
+    case = gen_case(rng)
+    case["crash_horizon"] = True
+    if rng.random() < 0.45:
+        case["work"] = rng.choice([30, 120, 400])
+    if rng.random() < 0.3:
+        def L(k: str) -> int:
+            return _lat(case, k, 0)
+
+        t_done = int(case["tau"]) + L("begin_req") + L("begin_resp") + L("ir") + L("complete_req")
+        first = [s for s in case["sends"] if s["at"] < int(case["tau"]) - 30][:1]
+        at = max(1, t_done + rng.choice([-20, 0, 1, L("complete_resp"), L("complete_resp") + 40, 600]))
+        first = [{"at": s["at"], "n": 1} for s in first]
+        burst = [{"at": at + rng.choice([0, 0, 1, 7]), "n": len(first) + j + 1} for j in range(rng.randint(2, 3))]
+        case["sends"] = first + burst
+    return case
+
+
 def check_cases(cases: list[dict], prop: str = "C36") -> list[dict]:
     """run the cases on the real stack, one driver call for all of them (every op stream starts with `binit`)"""
     from ..runner import Driver, diff_streams
@@ -738,5 +1085,5 @@ def check_cases(cases: list[dict], prop: str = "C36") -> list[dict]:
         m = [project(op, l) for op, l in zip(o["ops"], model[pos:pos + n])]
         pos += n
         d = diff_streams("lifecycle-protocol", o["ops"], m, impl_lines(o), context={"kind": "dbos_gated", "case": case})
-        res.append({"case": case, "run": o, "divergence": d, "findings": monitors(o, prop)})
+        res.append({"case": case, "run": o, "divergence": d, "findings": monitors_c26(o) if prop == "C26" else monitors(o, prop)})
     return res
